@@ -98,9 +98,12 @@ class C08(runner.Prop):
                 self.node_laws(s, node, cfg, ctx)
                 todo += list(zip(s.children(), node.children))
             # identity transforms
-            same_spec(ctx, 'transform/none', spec.transform(), spec)
-            same_spec(ctx, 'transform/identity', spec.transform(lambda x: x, lambda x: x), spec)
-            same_spec(ctx, 'transform/identity_node_only', optree.treespec_transform(spec, lambda x: x), spec)
+            for tag, call in (('none', lambda: spec.transform()), ('identity', lambda: spec.transform(lambda x: x, lambda x: x)),
+                              ('identity_node_only', lambda: optree.treespec_transform(spec, lambda x: x))):
+                try:
+                    same_spec(ctx, f'transform/{tag}', call(), spec)
+                except Exception as e:  # noqa: BLE001
+                    ctx.fail(f'transform/{tag}/raises', f'{type(e).__name__}: {e}')
             # the two nullary constructors carry the flag they were given
             for tag, made, ref in (('treespec_leaf', optree.treespec_leaf(none_is_leaf=nil), optree.tree_structure(U.Leaf(0), none_is_leaf=nil)),
                                    ('treespec_none', optree.treespec_none(none_is_leaf=nil), optree.tree_structure(None, none_is_leaf=nil))):
@@ -237,6 +240,7 @@ class C08(runner.Prop):
                 ctx.fail('one_level/leaf', f'{ol}')
             return
         if ol is None or not ol.is_one_level() or ol.kind != s.kind or ol.type is not s.type \
+                or ol.none_is_leaf != s.none_is_leaf or ol.namespace != s.namespace \
                 or ol.num_children != n or not compare.path_same(tuple(ol.entries()), tuple(ents)):
             ctx.fail('one_level/root', f'{ol} of {s}')
             return
